@@ -259,6 +259,13 @@ func isGhostClass(class string) bool {
 	if strings.Contains(class, "$") {
 		return true
 	}
+	if globalSpecs != nil && len(globalSpecs.StrictFields) > 0 && !strings.HasPrefix(class, "map:") {
+		for c := range globalSpecs.StrictFields {
+			if classMatches(class, c) {
+				return true
+			}
+		}
+	}
 	if globalSpecs != nil && strings.HasPrefix(class, "map:") {
 		for c := range globalSpecs.OwnedMaps {
 			if class == c || strings.HasPrefix(class, c+"#") {
